@@ -15,7 +15,8 @@ RULE = ("well-formed: index lists of length 0..5 over [0,2^32) with edge values,
         "marks; malformed: single-fault grammar (wrong root, junk tokens, empty inner component, negative and oversized numbers "
         "with and without marker) applied at every level 1..5; deep: well-formed paths of 6..12 levels; lenient: spellings "
         "Python's int() accepts (+5, ' 7', 1_0, non-ASCII digits, trailing '/') judged for value only; distinct = distinct "
-        "(monitor, case) digests")
+        "(monitor, case) digests"
+        " EXTENSIONS: + all two- and three-marker suffix combinations, well-formed twins (case / NFKC / stripped spellings) looked up before the malformed string, wallets imported at depth d (private and watch-only), every refusal repeated three times")
 LEVEL_TEXT = ("Each Bip32Path.parse / str / by_path / str(node) execution is compared with an own strict recursive-descent "
               "parser and the reference derivation; malformed strings must make by_path raise (a returned node is the "
               "violation); paths deeper than five levels must raise or yield the node of the FULL path.")
@@ -212,7 +213,8 @@ def judge_deep(ctx, case):
                      outcome="truncated" if trunc else "other-key", mech="C17.truncate_gt5" if trunc else "C17.deep.other_key")
 
 
-JUNK = ["5\u2019", "5\u02b9", "5\uff48", "5H", "5\u2032", "\uff15'", "5\u00b4", "abc", "0x10", "0b1", "1.5", "1e3", "None", "'", "h", "5''", "5hh", "5'h", "h5", "'5", "--5", "5-", "1,0", "1;", "m", "*", "?",
+MARKS = ["'", "h", "H", "\u2019"]
+JUNK = ["5" + a + b for a in MARKS for b in MARKS] + ["5" + a + b + c for a in "'h" for b in "'h" for c in "'h"] + ["5\u2019", "5\u02b9", "5\uff48", "5H", "5\u2032", "\uff15'", "5\u00b4", "abc", "0x10", "0b1", "1.5", "1e3", "None", "'", "h", "5''", "5hh", "5'h", "h5", "'5", "--5", "5-", "1,0", "1;", "m", "*", "?",
         "1 2", "true", "0o7", "1__0", "_1", "1_"]
 LENIENT = ["+5", " 7", "7 ", "007", "1_0", "٥", "５", "+0'", " 3'", "1_000h", "-0"]
 BADNUM = ["-1", "-5", "-1'", "-5h", "-2147483648'", "2147483648'", "2147483649h", "4294967295'", "4294967296", "4294967296'",
